@@ -5,6 +5,7 @@ import (
 	"encoding/hex"
 	"encoding/json"
 	"fmt"
+	"io"
 	"net/http"
 	"net/http/httptest"
 	"runtime"
@@ -420,7 +421,12 @@ func c16Judge(w *c16World, q c16Req, status int, body []byte) (out [][2]string, 
 
 func c16Serve(w *c16World, q c16Req) (status int, body []byte, panicMsg string) {
 	rec := httptest.NewRecorder()
-	req, _ := http.NewRequest("POST", "/", bytes.NewReader(q.body))
+	var rd io.Reader = bytes.NewReader(q.body)
+	if q.txID%3 == 1 {
+		// a body whose length is not known up-front (chunked transfer): ContentLength is -1
+		rd = struct{ io.Reader }{bytes.NewReader(q.body)}
+	}
+	req, _ := http.NewRequest("POST", "/", rd)
 	p, msg := core.Guard(func() { w.handler.ServeHTTP(rec, req) })
 	if p {
 		return 0, nil, msg
@@ -437,8 +443,21 @@ func runC16(c *core.Ctx) {
 		}
 		r := c.RNG("world", wi)
 		w := newC16World(r)
+		var prev c16Req
 		for k := 0; k < perWorld; k++ {
 			q := c16MakeRequest(r, w, false)
+			if k > 0 && k%7 == 3 && prev.body != nil && !strings.HasPrefix(prev.kind, "malformed") {
+				// the same frame again in a new transaction (a second network server forwarding it, a retry):
+				// the join-server keeps no state, so the verdict is the same as the first time
+				q = prev
+				q.txID = prev.txID + 1 + uint32(r.Intn(1000))
+				var m map[string]interface{}
+				if json.Unmarshal(prev.body, &m) == nil {
+					m["TransactionID"] = q.txID
+					q.body, _ = json.Marshal(m)
+				}
+			}
+			prev = q
 			status, body, pm := c16Serve(w, q)
 			c.Eval(1)
 			if pm != "" {
